@@ -257,9 +257,99 @@ func runC11Writers(c *harness.Case, kind string) {
 	c.Fingerprint(true, "writers", kind, c.Index)
 }
 
+// runC11LongIter: an iterator over 600-900 keys (more than one page of any engine's client) opened at "now"; after 50
+// keys were taken, ONE atomic batch changes a key already taken, a key in the middle and a key near the end. What
+// the iterator goes on to yield must still be the store as it was when the iterator was opened.
+func runC11LongIter(c *harness.Case, kind string) {
+	r := c.Rng
+	eng, err := harness.NewEngine(kind)
+	if err != nil {
+		c.Inconclusive(err.Error())
+		return
+	}
+	defer eng.Close()
+	kv := eng.KV
+	if harness.IsMetricsKind(kind) {
+		kv = harness.WithMetrics(kv, harness.NewRecMetrics(true))
+	}
+	ctx := context.Background()
+	nKeys := 600 + r.Intn(300)
+	key := func(i int) string { return fmt.Sprintf("long/%05d", i) }
+	for base := 0; base < nKeys; base += 100 {
+		b := kv.BeginBatchWrite()
+		for i := base; i < base+100 && i < nKeys; i++ {
+			b.Put([]byte(key(i)), []byte("old"), 0)
+		}
+		if err := b.Commit(ctx); err != nil {
+			c.Inconclusive("put failed: " + err.Error())
+			return
+		}
+	}
+	backward := r.Intn(2) == 0
+	start, end := []byte("long/"), []byte("long0")
+	if backward {
+		start, end = []byte("long/99999"), []byte("long/")
+	}
+	it, err := kv.Iter(ctx, start, end, 0, 0)
+	if err != nil {
+		c.Inconclusive("iter: " + err.Error())
+		return
+	}
+	defer it.Close()
+	var got []string
+	newAt := map[string]bool{}
+	step := func() bool {
+		if err := it.Next(ctx); err != nil {
+			return false
+		}
+		got = append(got, string(it.Key()))
+		if string(it.Val()) != "old" {
+			newAt[string(it.Key())] = true
+		}
+		return true
+	}
+	for i := 0; i < 50 && step(); i++ {
+	}
+	taken, middle, far := key(10), key(nKeys/2), key(nKeys-10)
+	if backward {
+		taken, far = key(nKeys-10), key(10)
+	}
+	b := kv.BeginBatchWrite()
+	for _, k := range []string{taken, middle, far} {
+		b.Put([]byte(k), []byte("new"), 0)
+	}
+	if err := b.Commit(ctx); err != nil {
+		c.Inconclusive("batch failed: " + err.Error())
+		return
+	}
+	for step() {
+	}
+	wit := map[string]interface{}{"engine": kind, "keys": nKeys, "backward": backward, "changed_in_one_batch_after_50_steps": []string{taken, middle, far}, "yielded": len(got)}
+	if len(got) != nKeys {
+		c.Violatef("C11 iterator-differs-from-reference long-iteration engine="+eng.Kind, wit, "an iterator over %d keys opened before a batch yielded %d keys", nKeys, len(got))
+		return
+	}
+	if len(newAt) > 0 {
+		var ks []string
+		for k := range newAt {
+			ks = append(ks, k)
+		}
+		sort.Strings(ks)
+		c.Violatef("C11 iterator-not-from-one-snapshot long-iteration engine="+eng.Kind, wit, "the iterator was opened, 50 keys were taken (all as written before), then one batch changed %q, %q and %q; the iterator went on to yield the new value for %v - neither the store before the batch nor the store after it", taken, middle, far, ks)
+		return
+	}
+	c.Stat("long_iterations_across_a_concurrent_batch", 1)
+	c.AddSet("engines", kind)
+	c.Fingerprint(true, "long-iter", kind, backward, nKeys)
+}
+
 func runC11(c *harness.Case) {
 	r := c.Rng
 	kind := c11Engines[c.Index%len(c11Engines)]
+	if (c.Index/len(c11Engines))%20 == 7 {
+		runC11LongIter(c, kind)
+		return
+	}
 	switch (c.Index / len(c11Engines)) % 5 {
 	case 4:
 		runC11Readers(c, kind)
